@@ -232,6 +232,22 @@ def refine_coordinatewise(V, stats, h, ev, w, kind):
                               "(proposal not centred on the current state)" % (dj[0], float(loc), float(w[dj[0]])))
                     if np.ndim(scale) == 0 and not float(scale) > 0:
                         _viol(V, "A.proposal", "gibbs: proposal scale %r" % (scale,))
+                    # the point that is evaluated (and stored if accepted) is the drawn value itself - passed through
+                    # the limits set on that parameter, nothing else (no rounding, no truncation)
+                    drawn = float(e[4])
+                    if np.isfinite(drawn):
+                        def image(j):
+                            lo, hi = getattr(h, "limits", {}).get(int(j), (-np.inf, np.inf))
+                            if np.isfinite(lo) and np.isfinite(hi):
+                                return oracles.fold_exact(drawn, lo, hi)[0]
+                            return abs(drawn) if np.isfinite(lo) else drawn
+                        js = [int(dj[0])] if dj.size == 1 else list(range(d))
+                        tol = 1e-9 * (1.0 + abs(drawn))
+                        if not any(abs(image(j) - float(y[j])) <= tol for j in js):
+                            _viol(V, "A.proposal", "gibbs: the proposal drawn for the update is %r but the point evaluated is %r "
+                                  "(current state %r): the evaluated coordinate is not the drawn value (within the limits set)"
+                                  % (drawn, y.tolist(), w.tolist()))
+                        stats["gibbs_proposal_images_checked"] += 1
                     break
         pend = (k, y, val)
     if pend is not None:
@@ -249,6 +265,23 @@ def refine_metropolis(V, stats, h, ev, w, kind="metropolis"):
     for n, k in enumerate(posts):
         y, val = ev[k][2], ev[k][3]
         acc = n == len(posts) - 1
+        # every coordinate of the evaluated point is the value drawn for it, passed through that parameter's limits
+        draws = []
+        for e in reversed(ev[:k]):
+            if e[1] == "post":
+                break
+            if e[1] == "rng" and e[2] == "normal" and np.ndim(e[4]) == 0:
+                draws.append(float(e[4]))
+        draws.reverse()
+        if len(draws) == h.d and np.all(np.isfinite(draws)):
+            for j, drawn in enumerate(draws):
+                lo, hi = getattr(h, "limits", {}).get(j, (-np.inf, np.inf))
+                img = oracles.fold_exact(drawn, lo, hi)[0] if np.isfinite(lo) and np.isfinite(hi) else (abs(drawn) if np.isfinite(lo) else drawn)
+                if abs(img - float(y[j])) > 1e-9 * (1.0 + abs(drawn)):
+                    _viol(V, "A.proposal", "metropolis: the value drawn for parameter %d is %r but the point evaluated is %r: the evaluated "
+                          "coordinate is not the drawn value (within the limits set)" % (j, drawn, y.tolist()))
+                    break
+            stats["metropolis_proposal_images_checked"] += 1
         _judge(V, stats, kind, acc, (val - Lw) / T, _uniform_after(ev, k), "the move %r -> %r" % (w.tolist(), y.tolist()),
                scale=(abs(val) + abs(Lw)) / T)
         if acc:
